@@ -80,6 +80,7 @@ def swath(rng, n_rows, n_cols, lon0, lat0, span, invalid_frac=0.0, dup=False):
 
 def area_at(rng, lon0, lat0, w, h, res_m):
     """small area centred near (lon0, lat0): laea centred there, or polar stere / eqc / longlat"""
+    lat0 = max(-89.9, min(89.9, lat0))
     kind = rng.choice(["laea", "laea", "stere", "eqc", "longlat"])
     if kind == "laea":
         proj = {"proj": "laea", "lat_0": lat0, "lon_0": lon0, "ellps": "WGS84"}
